@@ -253,10 +253,17 @@ class Tracker:
             if len(call.args) >= 2:
                 return [call.args[0], call.args[1]]
             return None
+        def unwrap(x):
+            # np.array([a, b], dtype=...) / np.asarray([a, b]) is the list it wraps
+            if isinstance(x, ast.Call) and dotted(x.func) in ('np.array', 'np.asarray',
+                                                              'np.atleast_1d') and x.args and \
+                    isinstance(x.args[0], (ast.List, ast.Tuple)):
+                return x.args[0]
+            return x
         if call.args and isinstance(call.args[0], (ast.Tuple, ast.List)):
-            return list(call.args[0].elts)
+            return [unwrap(x) for x in call.args[0].elts]
         if call.args:
-            return [call.args[0]]
+            return [unwrap(call.args[0])]
         return None
 
     # -- statement -> events ---------------------------------------------------
@@ -348,6 +355,10 @@ class Tracker:
                     elif meth == 'append':
                         out.append(Event(m, lvl, ik, 'PUSH', None, c.args[0] if c.args else None,
                                          st, nid))
+                    elif meth == 'extend' and c.args and \
+                            isinstance(c.args[0], (ast.List, ast.Tuple)):
+                        for x in c.args[0].elts:      # extend([a, b]) == append(a); append(b)
+                            out.append(Event(m, lvl, ik, 'PUSH', None, x, st, nid))
                     elif meth == 'extend':
                         out.append(Event(m, lvl, ik, 'PUSHLIST', None, c.args[0], st, nid))
                     elif meth == 'insert':
@@ -716,9 +727,35 @@ def local_list_pushes(func, name, before_nid):
 class ExpandingTracker(Tracker):
     """Tracker that expands PUSHLIST of a local list into its individual pushes."""
 
+    def _record_set_keys(self):
+        """Index keys under which a list member has its record replaced in place
+        (`self.bounds[index] = new`)."""
+        if getattr(self, '_rsk', None) is None:
+            keys = {}
+            for n in self.cfg.nodes:
+                for e in Tracker.events_of(self, n):
+                    if e.op == 'SET' and e.level == 'elem' and e.idx is not None:
+                        keys.setdefault(e.idx, set()).add(n.id)
+            self._rsk = keys
+        return self._rsk
+
+    def _near_record_set(self, e):
+        """Is the array store on a path with a list-record replacement at the same index?"""
+        for nid in self._record_set_keys().get(e.idx, ()):
+            if nid == e.nid or self.cfg.can_reach(nid, e.nid) or self.cfg.can_reach(e.nid, nid):
+                return True
+        return False
+
     def events_of(self, node):
         out = []
         for e in Tracker.events_of(self, node):
+            if e.op == 'MARK' and e.level == 'elem' and e.idx is not None and \
+                    e.idx in self._record_set_keys() and self._near_record_set(e):
+                # array[index] = v next to list[index] = new record: the array's entry of the
+                # same record is replaced as well
+                out.append(Event(e.member, 'elem', e.idx, 'SET', None, e.payload, e.ast, e.nid,
+                                 {'from_mark': True}))
+                continue
             if e.op == 'PUSHLIST' and isinstance(e.payload, ast.Name):
                 pl = local_list_pushes(self.func, e.payload.id, node.id)
                 if pl is not None:
